@@ -318,7 +318,15 @@ func Exec(p Program, choices []int, free bool) (*Execution, error) {
 	if err != nil {
 		return nil, err
 	}
-	defer w.Cleanup()
+	defer func() {
+		if p.Block {
+			// the blocking wrapper's Close waits for the barrier token: after a deadlocked or
+			// aborted execution it would wait for real. The final step closes it under the
+			// scheduler; on every other path the handle is dropped with the directory.
+			w.L = nil
+		}
+		w.Cleanup()
+	}()
 	bkBase = w.Dir
 	defer func() {
 		for n := 0; n < 3; n++ {
